@@ -150,6 +150,9 @@ Unspecified(sum, cfg, env, role) ==
      \/ lo.t = "int" /\ hi.t \in {"pinf", "ninf"} /\ Abs(lo.v) > cut
      \/ hi.t = "int" /\ lo.t \in {"pinf", "ninf"} /\ Abs(hi.v) > cut
      \/ ~b.blank /\ UsesIndex(b) /\ b.v # sum.var /\ b.v \in KnownConstants \cup KnownFunctions \cup cfg.vars \cup cfg.ivars
+     \* a summand that is never evaluated: nothing is said about names it cannot use
+     \/ ~b.blank /\ IsRange(lo) /\ IsRange(hi) /\ Index(lo, hi, cfg.evenOdd, cut) = {}
+          /\ ((UsesIndex(b) /\ b.v # sum.var) \/ (role = "student" /\ UsesC(b)))
      \/ ~b.blank /\ IsRange(lo) /\ IsRange(hi) /\ UsesFact(b)
           /\ \E m \in Index(lo, hi, cfg.evenOdd, cut) : Inner(b, m) < 0 \/ Inner(b, m) > 12
 
